@@ -333,6 +333,7 @@ pub fn run(ctx: &Ctx) -> i32 {
                 };
                 let p = ps.last().unwrap().clone();
                 n += 1;
+                crate::report::note_case(&p.to_fen());
                 st.case(hash64(&(ksid, p.key())), true);
                 let case = || {
                     J::obj(vec![("start", J::s(start.to_fen())), ("moves", J::arr_s(ms.iter().map(|m| m.uci()))), ("position", J::s(p.to_fen()))])
